@@ -48,8 +48,30 @@ fn arc_put_truthful(pre: &ArcAbs, post: &ArcAbs, k: u8, v: u8, r: PR) -> bool {
         PR::Update(o) => before == Some(o),
         _ => false, // nothing but ghosts ever leaves an ARC cache during a put, and those leave silently
     };
-    // every previously resident entry other than k is still retained (resident or ghost) with its value
-    let kept = others_kept(&[&pre.recent, &pre.frequent], &post_all, Some(k), None);
+    // every previously resident entry other than k is still retained (resident or ghost) with its value, except
+    // that the ONE entry demoted by this put may already have been trimmed from its ghost list again
+    // ("ARC may discard ghost entries silently": at that moment it is a ghost)
+    let mut lost = 0;
+    let mut li = 0;
+    while li < 2 {
+        let l = if li == 0 { &pre.recent } else { &pre.frequent };
+        let mut i = 0;
+        while i < NMAX {
+            if i < l.n && l.k[i] != k {
+                match lookup(&post_all, l.k[i]) {
+                    Some(x) => {
+                        if x != l.v[i] {
+                            lost += 2;
+                        }
+                    }
+                    None => lost += 1,
+                }
+            }
+            i += 1;
+        }
+        li += 1;
+    }
+    let kept = lost <= 1;
     // nothing appears from nowhere: every retained key afterwards was retained before, or is k
     let mut no_new = true;
     let mut li = 0;
@@ -115,19 +137,19 @@ fn arc_put() {
     let is_new = !in_resident && !in_b1 && !in_b2;
 
     kani::cover!((in_resident) && (pre.recent.has(k)), "arc put: recent hit");
-    kani::cover!((in_resident) && (pre.frequent.has(k) && pre.frequent.n >= 2), "arc put: frequent hit among several");
+    kani::cover!((in_resident) && (pre.frequent.has(k) && pre.frequent.n >= 2), "arc put: frequent hit among several [N>=2]");
 
     kani::cover!((in_b1) && (!full), "arc B1 hit: room");
     kani::cover!((in_b1) && (full && pre.frequent.n == 0), "arc B1 hit: full, frequent empty");
     kani::cover!((in_b1) && (full && pre.recent.n == 0), "arc B1 hit: full, recent empty");
     kani::cover!((in_b1) && (full && pre.recent_evict.n == pre.size), "arc B1 hit: full and B1 full");
-    kani::cover!((in_b1) && (pre.frequent_evict.n > pre.recent_evict.n), "arc B1 hit: delta > 1");
+    kani::cover!((in_b1) && (pre.frequent_evict.n > pre.recent_evict.n), "arc B1 hit: delta > 1 [N>=2]");
 
     kani::cover!((in_b2) && (!full), "arc B2 hit: room");
     kani::cover!((in_b2) && (full && pre.frequent.n == 0), "arc B2 hit: full, frequent empty");
     kani::cover!((in_b2) && (full && pre.recent.n == 0), "arc B2 hit: full, recent empty");
     kani::cover!((in_b2) && (full && pre.frequent_evict.n == pre.size), "arc B2 hit: full and B2 full");
-    kani::cover!((in_b2) && (pre.recent_evict.n > pre.frequent_evict.n), "arc B2 hit: delta > 1");
+    kani::cover!((in_b2) && (pre.recent_evict.n > pre.frequent_evict.n), "arc B2 hit: delta > 1 [N>=2]");
 
     kani::cover!((is_new) && (!full), "arc new key: room");
     kani::cover!((is_new) && (full && pre.frequent.n == 0 && pre.recent.n <= pre.p), "arc new key: full, frequent empty, recent not over p (fallback)");
@@ -340,7 +362,7 @@ macro_rules! arc_list_accessors {
         fn $name() {
             let (mut c, pre) = any_arc();
             let a = pre.$field;
-            kani::cover!(a.n >= 2, "arc iterators: several entries");
+            kani::cover!(a.n >= 2, "arc iterators: several entries [N>=2]");
             let kv = |p: (&u8, &u8)| (*p.0, *p.1);
             let kvm = |p: (&u8, &mut u8)| (*p.0, *p.1);
             let (first, last) = (a.first(), a.last());
